@@ -303,36 +303,18 @@ def r9_3(ctx):
                 if isinstance(n, (ast.Global, ast.Nonlocal)):
                     ctx.violation(construct(g, "global-statement"), g.loc(n), "global/nonlocal state")
     # (ii) escaping mutable defaults
+    from ..guards import escaping_defaults
+    seen_defaults = set()
     for g in ctx.repo.all_funcs():
         for p, d in g.defaults.items():
-            if not isinstance(d, (ast.List, ast.Dict, ast.Set)):
-                continue
-            ctx.instance(construct(g, f"mutable-default:{p}"))
-            for n in ast.walk(g.node):
-                if isinstance(n, ast.Assign) and len(n.targets) == 1 and isinstance(n.targets[0], ast.Attribute):
-                    tgt = n.targets[0]
-                    v = n.value
-                    aliases = isinstance(v, ast.Name) and v.id == p
-                    if isinstance(v, ast.IfExp):
-                        # `p if <cond> else <fresh>` aliases the default when cond holds for the default value
-                        if isinstance(v.body, ast.Name) and v.body.id == p:
-                            cond = ast.unparse(v.test)
-                            if "is not None" in cond:
-                                aliases = True
-                            elif "!=" in cond and ast.unparse(d) in cond:
-                                aliases = False  # `p if p != {} else {}` : the default takes the fresh branch
-                            else:
-                                aliases = True
-                    if not aliases:
-                        continue
-                    t = ctx.types.ftypes(g).type_of(tgt.value)
-                    cls = t[1] if t and t[0] == "obj" else g.cls
-                    muts = [e for e in ctx.eff.writers(cls, tgt.attr, kinds=("mut",)) if e.op not in ("del",)] if cls else []
-                    if muts:
-                        ctx.violation(construct(g, f"mutable-default-escapes:{p}"), g.loc(n),
-                                      f"the mutable default of parameter `{p}` is stored into {cls}.{tgt.attr} (alias) and {cls}.{tgt.attr} is mutated in place at "
-                                      f"{muts[0].loc} ({muts[0].op}): every later call that relies on the default sees the polluted object",
-                                      {"mutators": [m.loc for m in muts][:5]})
+            if isinstance(d, (ast.List, ast.Dict, ast.Set)):
+                ctx.instance(construct(g, f"mutable-default:{p}"))
+    for g, p, n, cls, attr, muts in escaping_defaults(ctx):
+        if muts:
+            ctx.violation(construct(g, f"mutable-default-escapes:{p}"), g.loc(n),
+                          f"the mutable default of parameter `{p}` is stored into {cls}.{attr} (alias) and {cls}.{attr} is mutated in place at "
+                          f"{muts[0].loc} ({muts[0].op}): every later call that relies on the default sees the polluted object",
+                          {"mutators": [m.loc for m in muts][:5]})
     ctx.end()
 
 
@@ -437,7 +419,57 @@ def r9_5(ctx):
     r17_3(ctx)
 
 
+READ_ONLY_PREFIXES = ("create_", "plot_", "print_", "get_", "extract_", "export_", "write_", "can_", "has_", "is_", "__str__")
+
+
+def r9_8(ctx):
+    """'no hidden state that changes a later run': the query, report, chart and export functions are called between runs at will; a
+    later simulate() gives the same result only if they leave the model as it is.  None of them stores, deletes or mutates an
+    attribute of a model object -- directly, or through a local that *may* denote such an attribute (`xs = self.task_list` on one
+    branch, a filtered copy on the other)."""
+    ctx.begin("R9.8", "query / report / chart / export functions do not modify model objects", floor=60)
+    from ..effects import MUTATORS
+    for g in ctx.repo.all_funcs():
+        if not g.cls or g.cls not in ctx.repo.model_classes or not g.name.startswith(READ_ONLY_PREFIXES) or getattr(g, "parent", None) is not None:
+            continue
+        ctx.instance(g.qualname)
+        for ef in ctx.eff.of(g):
+            if ef.kind in ("store", "mut", "del") and (ef.cls is not None or (isinstance(ef.recv, ast.Name) and ef.recv.id == "self")):
+                ctx.violation(construct(g, f"writes:{ef.attr}"), ef.loc, f"{g.qualname} is a query/report function but {ef.kind}s {ef.cls or g.cls}.{ef.attr} "
+                              f"(`{ast.unparse(ef.node)[:60]}`): calling it between two runs changes what the next run starts from")
+        # may-alias: a local bound (on any path) to an attribute of an object, then changed in place
+        ft = ctx.types.ftypes(g)
+        may = {}
+        for n in ast.walk(g.node):
+            if isinstance(n, ast.Assign):
+                vals = [n.value.body, n.value.orelse] if isinstance(n.value, ast.IfExp) else [n.value]
+                for t in n.targets:
+                    if isinstance(t, ast.Name):
+                        for v in vals:
+                            if isinstance(v, ast.Attribute):
+                                tv = ft.type_of(v.value)
+                                if (tv and tv[0] == "obj") or (isinstance(v.value, ast.Name) and v.value.id == "self"):
+                                    may.setdefault(t.id, []).append(v)
+        for n in ast.walk(g.node):
+            hit = None
+            if isinstance(n, ast.Call) and isinstance(n.func, ast.Attribute) and n.func.attr in MUTATORS and isinstance(n.func.value, ast.Name) and n.func.value.id in may:
+                hit = (n.func.value.id, f".{n.func.attr}()")
+            elif isinstance(n, (ast.Assign, ast.AugAssign, ast.Delete)):
+                tg = n.targets if isinstance(n, (ast.Assign, ast.Delete)) else [n.target]
+                for t in tg:
+                    if isinstance(t, ast.Subscript) and isinstance(t.value, ast.Name) and t.value.id in may:
+                        hit = (t.value.id, "item assignment")
+                    elif isinstance(n, ast.AugAssign) and isinstance(t, ast.Name) and t.id in may:
+                        hit = (t.id, "augmented assignment")
+            if hit:
+                a = may[hit[0]][0]
+                ctx.violation(construct(g, f"may-write:{a.attr}"), g.loc(n), f"{g.qualname} is a query/report function but changes `{hit[0]}` in place ({hit[1]}), and `{hit[0]}` can be "
+                              f"`{ast.unparse(a)}` itself (bound at line {a.lineno}): the model's {a.attr} is then reordered / edited by a report, and the next run differs")
+    ctx.end()
+
+
 def run(ctx):
+    r9_8(ctx)
     r9_1(ctx)
     r9_2(ctx)
     r9_3(ctx)
